@@ -77,6 +77,14 @@ impl Fq2 {
         }
         let b = self.c1;
         let a = self.c0;
+        if b.is_zero() {
+            // a real element is always a square in Fq2: sqrt(a) if a is a residue of Fq,
+            // otherwise sqrt(-a/2) * u  (u^2 = -2)
+            return match a.sqrt() {
+                Some(t) => Some(Self::new(t, Fq::zero())),
+                None => (-a).div2().sqrt().map(|t| Self::new(Fq::zero(), t)),
+            };
+        }
         let bb = b.squared();
         let aa = a.squared();
         let u = aa + bb.double();
